@@ -66,6 +66,9 @@ struct OlcEngine final : Engine {
     if (lay.p3 > 7) lay.p3 = 7;
     lay.base.assign(static_cast<size_t>(lay.L), '\0');
     for (auto& ch : lay.base) ch = static_cast<char>(r.chance(0.15) ? (r.chance(0.5) ? 0x00 : 0xFF) : static_cast<int>(r.below(256)));
+    // "small integer" shape: all constant bytes equal (00 00 00 .. like keys 0..1000), so that compressed paths are runs of
+    // one byte and a stale depth or prefix length still compares equal
+    if (r.chance(0.25)) { const char fill = static_cast<char>(r.chance(0.6) ? 0x00 : (r.chance(0.5) ? 0xFF : static_cast<int>(r.below(256)))); for (auto& ch : lay.base) ch = fill; }
     // fan-outs
     static const int n1s[] = {1, 2, 2, 2, 3, 5};
     const int n1 = n1s[r.below(6)];
@@ -113,9 +116,12 @@ struct OlcEngine final : Engine {
     if (deep_b >= 0) { special.push_back(lay.key(a0, deep_b, -1)); special.push_back(lay.key(a0, deep_b, A3[1])); special.push_back(lay.key(a0, deep_b, A3[2])); }
     for (auto& k : sib_keys) special.push_back(k);
     special.push_back(lay.key(A1[static_cast<size_t>(n1)], -1, -1));  // absent top byte: grows / creates the top node
-    if (lay.p2 - lay.p1 > 1) {  // diverges inside the hot node's compressed path
+    if (lay.p2 - lay.p1 > 1) {  // diverges inside the hot node's compressed path: at its first byte, its last byte, or anywhere
+      const int span = lay.p2 - lay.p1 - 1;
+      const auto wx = r.below(3);
+      const int at = lay.p1 + 1 + (wx == 0 ? 0 : (wx == 1 ? span - 1 : static_cast<int>(r.below(static_cast<uint64_t>(span)))));
       std::string k = lay.key(a0, -1, -1);
-      k[static_cast<size_t>(lay.p1 + 1)] = static_cast<char>(k[static_cast<size_t>(lay.p1 + 1)] ^ 0x11);
+      k[static_cast<size_t>(at)] = static_cast<char>(k[static_cast<size_t>(at)] ^ 0x11);
       special.push_back(k);
     }
     if (lay.p1 > 0) {  // diverges inside the root's compressed path
@@ -187,6 +193,70 @@ struct OlcEngine final : Engine {
       }
       c.threads.push_back(std::move(ops));
     }
+    c.set_knob("initial_threads", nthreads);
+    if (focus == 4 || focus == 14 || focus == 0 || focus == 10) {
+      // QSBR membership changes inside the concurrent phase: pause+resume between index operations, and (sometimes) a
+      // qsbr_thread started by one of the running threads
+      for (auto& ops : c.threads)
+        for (size_t i = 0; i <= ops.size(); i++)
+          if (r.chance(0.07)) { Op o; o.kind = O_PAUSE_RESUME; o.key = o.key2 = std::string(static_cast<size_t>(lay.L), '\0'); ops.insert(ops.begin() + static_cast<long>(i), o); i++; }
+      if (nthreads < 4 && r.chance(0.2)) {
+        std::vector<Op> ops;
+        const int nops = static_cast<int>(r.range(1, 3));
+        for (int i = 0; i < nops; i++) {
+          Op o;
+          o.key = pick_key();
+          o.key2 = std::string(static_cast<size_t>(lay.L), '\0');
+          const auto pk = r.below(100);
+          if (pk < 40) o.kind = O_GET;
+          else if (pk < 70) { o.kind = O_INSERT; o.a = (static_cast<int64_t>(nthreads + 1) << 24) | (static_cast<int64_t>(i + 1) << 8) | 1; o.b = r.range(8, 40); }
+          else o.kind = O_REMOVE;
+          ops.push_back(o);
+        }
+        c.threads.push_back(std::move(ops));
+        const size_t parent = r.below(static_cast<uint64_t>(nthreads));
+        Op sp; sp.kind = O_SPAWN; sp.a = nthreads; sp.key = sp.key2 = std::string(static_cast<size_t>(lay.L), '\0');
+        auto& pops = c.threads[parent];
+        pops.insert(pops.begin() + static_cast<long>(r.below(pops.size() + 1)), sp);
+      }
+    }
+    if (keykind == 1) {
+      Rng vr = stream(seed, S_WORKLOAD + 16);
+      // variable-length byte-string keys: every key used by the program (prefill and point operations) is cut somewhere
+      // beyond the byte that tells it from its nearest neighbour, which keeps the whole set prefix-free
+      const bool novar = getenv("SIM_NO_VAR") != nullptr;  // debugging aid: fixed-length keys and bounds only
+      if (vr.chance(0.3) && !novar) {
+        std::set<std::string> all;
+        for (auto& o : c.prefill) all.insert(o.key);
+        for (auto& ops : c.threads) for (auto& o : ops) if (o.kind == O_GET || o.kind == O_INSERT || o.kind == O_REMOVE) all.insert(o.key);
+        std::vector<std::string> v(all.begin(), all.end());
+        auto lcp = [](const std::string& a, const std::string& b) { size_t i = 0; while (i < a.size() && i < b.size() && a[i] == b[i]) i++; return i; };
+        std::map<std::string, std::string> cut;
+        for (size_t i = 0; i < v.size(); i++) {
+          size_t minlen = 1;
+          if (i > 0) minlen = std::max(minlen, lcp(v[i - 1], v[i]) + 1);
+          if (i + 1 < v.size()) minlen = std::max(minlen, lcp(v[i], v[i + 1]) + 1);
+          std::string k = v[i];
+          if (minlen < k.size()) { const auto x = vr.below(100); k.resize(x < 40 ? minlen : (x < 60 ? k.size() : minlen + vr.below(k.size() - minlen + 1))); }
+          cut[v[i]] = k;
+        }
+        for (auto& o : c.prefill) o.key = cut[o.key];
+        for (auto& ops : c.threads) for (auto& o : ops) if (o.kind == O_GET || o.kind == O_INSERT || o.kind == O_REMOVE) o.key = cut[o.key];
+        c.set_knob("varlen", 1);
+      }
+      // scan bounds of other lengths than the stored keys: proper prefixes ("everything starting with ab") and extensions
+      if (vr.chance(0.35) && !novar) {
+        for (auto& ops : c.threads)
+          for (auto& o : ops)
+            if (o.kind == O_SCAN_FROM || o.kind == O_SCAN_RANGE)
+              for (std::string* k : {&o.key, &o.key2}) {
+                const auto x = vr.below(100);
+                if (x < 35 && !k->empty()) k->resize(1 + vr.below(k->size()));
+                else if (x < 50) { const size_t extra = 1 + vr.below(3); for (size_t i = 0; i < extra; i++) k->push_back(static_cast<char>(vr.chance(0.4) ? 0x00 : (vr.chance(0.5) ? 0xFF : static_cast<int>(vr.below(256))))); }
+              }
+        c.set_knob("varbound", 1);
+      }
+    }
     const auto qx = r.below(100);
     c.set_knob("qplace", qx < 45 ? 0 : (qx < 80 ? 1 : 2));
     c.set_knob("hold", (focus == 4 || focus == 9 || focus == 0 || focus == 14) && r.chance(0.6) ? 1 : 0);
@@ -209,12 +279,34 @@ struct OlcEngine final : Engine {
       case O_SCAN_FROM: return "scan_from(" + hex(o.key) + ", " + (o.a ? "fwd" : "rev") + (o.b > 0 ? ", halt after " + std::to_string(o.b) : "") + ")";
       case O_SCAN_RANGE: return "scan_range(" + hex(o.key) + ", " + hex(o.key2) + (o.b > 0 ? ", halt after " + std::to_string(o.b) : "") + ")";
       case O_QUIESCE: return "quiescent()";
+      case O_PAUSE_RESUME: return "qsbr_pause(); qsbr_resume()";
+      case O_SPAWN: return "start qsbr_thread running thread #" + std::to_string(o.a + 1);
       default: return "?";
     }
   }
 
   Result run(const Case& c) override {
     return c.knob("keykind", 0) == 0 ? run_u64(c, measured_ptr()) : run_kv(c, measured_ptr());
+  }
+
+  bool remove_thread(Case& c, size_t t) override {
+    // SPAWN ops name their target by index: keep indices stable while one exists
+    for (auto& th : c.threads) for (auto& o : th) if (o.kind == O_SPAWN) return false;
+    if (!Engine::remove_thread(c, t)) return false;
+    c.set_knob("initial_threads", static_cast<int64_t>(c.threads.size()));
+    return true;
+  }
+  bool remove_op(Case& c, size_t t, size_t i) override {
+    if (t < c.threads.size() && i < c.threads[t].size() && c.threads[t][i].kind == O_SPAWN) {
+      // removing the start of a thread removes that thread (always the last one) as well
+      const size_t child = static_cast<size_t>(c.threads[t][i].a);
+      if (child + 1 != c.threads.size()) return false;
+      if (!Engine::remove_op(c, t, i)) return false;
+      if (!Engine::remove_thread(c, child)) return false;
+      c.set_knob("initial_threads", static_cast<int64_t>(c.threads.size()));
+      return true;
+    }
+    return Engine::remove_op(c, t, i);
   }
 
   // try replacing scans by gets and dropping value lengths
